@@ -48,7 +48,7 @@ def variants():
 
 def events_for(variant):
     n = len(variants()[variant]["cells"])
-    ev = ["W", "A", "C", "B", "M0", "M1", "P", "Q", "R"] + [f"D{i}" for i in range(n)]
+    ev = ["W", "A", "C", "B", "M0", "M1", "P", "P2", "Q", "R"] + [f"D{i}" for i in range(n)]
     return ev
 
 
@@ -204,6 +204,9 @@ def add_entities(mesh, ops, bundle):
 def do_mod(mesh, ev):
     if ev == "P":
         mesh.modify_patch("inlet", "wall", ["inGroups (a b)", "value 3"])
+    elif ev == "P2":
+        # settings only, the type stays the plain 'patch'
+        mesh.modify_patch("outlet", "patch", ["inGroups (a b)"])
     elif ev == "Q":
         mesh.set_default_patch("rest", "wall")
     elif ev == "R":
@@ -355,7 +358,7 @@ def check_history(variant, hist):
 
 
 def _name(ev):
-    return {"W": "write", "A": "assemble", "C": "clear", "B": "backport", "P": "modify_patch", "Q": "set_default_patch", "R": "merge_patches"}.get(ev, "move" if ev[0] == "M" else "delete")
+    return {"W": "write", "A": "assemble", "C": "clear", "B": "backport", "P": "modify_patch", "P2": "modify_patch", "Q": "set_default_patch", "R": "merge_patches"}.get(ev, "move" if ev[0] == "M" else "delete")
 
 
 def run_case(case):
